@@ -3,9 +3,24 @@ from .. import gen, gen_grammar, core
 from ..core import rec_fields, unhex, hexs
 
 def parse_doc_items(s):
-    """'k=v,k=v;k=v' (hex) -> list of paragraphs of (name, value) strings"""
+    """'[k=v,k=v][k=v]' (hex) -> list of paragraphs of (name, value) strings"""
     out = []
     if s == "":
+        return out
+    assert s[0] == "[" and s[-1] == "]", s[:50]
+    for p in s[1:-1].split("]["):
+        fs = []
+        if p:
+            for f in p.split(","):
+                k, v = f.split("=", 1)
+                fs.append((unhex(k), unhex(v)))
+        out.append(fs)
+    return out
+
+def parse_ldoc_enc(s):
+    """the INPUT encoding of lossy documents: paragraphs ';' fields ',' name=value (hex)"""
+    out = []
+    if s in ("", "-"):
         return out
     for p in s.split(";"):
         fs = []
